@@ -89,9 +89,15 @@ def gen_history(g, w, n_ops, probes=True):
         k = r.random()
         if k < 0.28:
             p = r.choice(PREFIXES)
+            if obj.get_default_namespace() is not None and r.random() < 0.06:
+                # a Namespace object with the empty prefix offered to a scope that has its default namespace: the empty prefix is
+                # taken, so this is a clash like any other ((b): a fresh prefix, the default stays what it is)
+                p = ""
             u = r.choice(URIS)
             regs = list(obj.get_registered_namespaces())
             taken = {x.prefix for x in regs} | {"prov", "xsd", "xsi"}       # the scope's own table: registrations + the three built-ins
+            if obj.get_default_namespace() is not None:
+                taken.add("")
             known_uris = {x.uri for x in regs} | {"http://www.w3.org/ns/prov#", "http://www.w3.org/2001/XMLSchema#",
                                                   "http://www.w3.org/2001/XMLSchema-instance"}
             n = w.add_ns(c, p, u)
